@@ -249,7 +249,7 @@ Proof.
               unfold ratio_num, ratio_den. lia.
             - apply andb_prop in Eg. destruct Eg as [_ Eg]. apply Z.ltb_lt in Eg. unfold ratio_den in *. lia. }
           destruct (grow_inv_lemma st1 size HI1 Hs Hd) as [_ Ht]. unfold within. rewrite Ht.
-          unfold grow_size. rewrite factor_integral.
+          rewrite (grow_size_val st1 size HI1 Hd). rewrite factor_integral.
           replace (factor_num * Z.max (hsize (last (heaps st1) (make_heap 0))) size + 1 - 1)
             with (factor_num * Z.max (hsize (last (heaps st1) (make_heap 0))) size) by lia.
           rewrite Z.div_1_r, Z.max_l by lia.
